@@ -196,8 +196,20 @@ def _number(threads):
     return threads
 
 
-def g_crash(rng, force_churn=False):
-    """C02: a pool that will suffer an abrupt worker death somewhere."""
+def g_crash(rng, force_churn=False, family=None):
+    """C02: a pool that will suffer an abrupt worker death somewhere.
+    family 'idle_sibling': 2-3 workers with a short idle time-out and tasks submitted one at a time, so that the
+    siblings of the busy worker keep walking through their time-out branch while results keep the manager looping."""
+    if family == "idle_sibling":
+        kind = rng.choice(["plain", "reusable"])
+        kw = {"max_workers": rng.randint(2, 3), "timeout": rng.choice([0.15, 0.25])}
+        ops = [{"op": "new", "ex": "e", "kind": kind, "kw": kw}]
+        for i in range(rng.randint(10, 16)):
+            ops.append({"op": "submit", "ex": "e", "task": {"k": "sleep", "d": rng.choice([0.05, 0.1])}, "resubmit_on_break": rng.random() < 0.2})
+            ops.append({"op": "wait", "futs": "all"})
+        ops += [{"op": "submit", "ex": "e", "task": t_ok(rng), "after": True}, {"op": "wait", "futs": "all"}, {"op": "shutdown", "ex": "e", "wait": True}]
+        return {"threads": _number([ops]), "end": "return"}, {"gen": "g_crash", "kind": kind, "kw": kw, "inline_death": False, "second_wave": False, "churn": False,
+                                                               "sigchld_ignore": False, "family": family}
     kind = "reusable" if rng.random() < 0.4 else "plain"
     kw = {"max_workers": rng.randint(1, 5), "timeout": rng.choice([None, 0.2, 0.1, 10]) if kind == "plain" else rng.choice([0.2, 0.1, 10])}
     if rng.random() < 0.25:
